@@ -27,8 +27,9 @@ MUTANTS = {
 }
 
 
-def run(ctx, prop, lanes=None, depth=None):
-    """Returns (verdicts, obs_by_id, stats) for the programs charged to `prop` (None: every program)."""
+def observe(ctx, prop, lanes=None, depth=None):
+    """Grow the programs (lanes of property `prop`, None: no bias) and evaluate them with the real interpreter.
+    Returns (observations of the programs, staged spec directory, Params for the judge)."""
     c02 = D.build_harness(ctx, "c02")
     binary = D.build_harness(ctx, "machine")
     types = ctx.path("machine_types.json")
@@ -58,6 +59,12 @@ def run(ctx, prop, lanes=None, depth=None):
     obs = [o for o in allobs if o.get("kind") == "prog"]
     D.write_ndjson(ctx.path("machine_obs.ndjson"), obs)
     D.write_ndjson(ctx.path("machine_vars_obs.ndjson"), [o for o in allobs if o.get("kind") == "vars"])
+    return obs, d, params
+
+
+def run(ctx, prop, lanes=None, depth=None):
+    """Returns (verdicts, obs_by_id, stats) for the programs charged to `prop` (None: every program)."""
+    obs, d, params = observe(ctx, prop, lanes, depth)
     verdicts = D.judge(ctx, "FPMachine_Judge", "FPMachine_judge.cfg", ctx.path("machine_obs.ndjson"),
                        params=dict(params, VarsObsFile=ctx.path("machine_vars_obs.ndjson")), timeout=3600, tag="machine-judge")
     D.check_complete(verdicts, obs, what="machine program")
@@ -91,7 +98,8 @@ def run(ctx, prop, lanes=None, depth=None):
         else:
             survived.append(m)
     ctx.mutants_killed.extend("machine:" + m for m in killed)
-    if survived and ctx.tier == "thorough":
+    if survived and ctx.tier == "thorough" and all(v["ok"] for v in mine):
+        # (when programs are rejected the implementation itself may behave like the wrong variant: report those)
         raise D.Inconclusive("machine: the programs charged to %s do not distinguish the reference semantics from the wrong variant(s) %s" % (prop, survived))
     stats = {"machine_programs": len(obs), "machine_wrong_variants_not_distinguished": survived, "machine_programs_charged_to_property": len(mine),
              "machine_programs_unconstrained": sum(1 for v in verdicts if v.get("open")),
